@@ -8,7 +8,9 @@ CFG = {'allowed_axioms': [],
                  'Resource.IncludeTableProofs',
                  'Resource.IncludeDenoteProofs',
                  'Resource.HeldJudge',
-                 'Resource.Held04Proofs'],
+                 'Resource.Held04Proofs',
+                 'Resource.JudgeSound08',
+                 'Resource.JudgeSound08x'],
  'generators': ['C08', 'C08x', 'C08H'],
  'harness_pkg': 'cres',
  'judge_module': 'Resource.Judge',
@@ -66,6 +68,16 @@ CFG = {'allowed_axioms': [],
               'C08_held_fold_is_list_for_equality',
               'C08_held_fold_any_described_chain',
               'C08_held_without_equivalence',
+              'C08_judge_sound_cpull',
+              'C08_judge_sound',
+              'C08_judge_sound_held_partial',
+              'C08_judge_sound_row',
+              'C08_booking_predicate_is_reference',
+              'C08_judge_sound_booklist',
+              'C08_judge_sound_bookpull_partial',
+              'C08_judge_sound_nonvacuous',
+              'C08_judge_sound_nonvacuous_equivalence',
+              'C08_judge_sound_nonvacuous_row_and_booking',
               'C08_nonvacuous',
               'C08_nonvacuous_lossy_replace',
               'C08_nonvacuous_rep',
